@@ -210,6 +210,41 @@ let load_pool (path : string) : unit =
   close_in ic
 let ty_named id = try Hashtbl.find pool id with Not_found -> failwith ("unknown type " ^ id)
 
+(* ---------- RPC interface descriptions (rpc.txt, written by tools/rpcgen.py) ---------- *)
+type rmethod = { mname : M.n list; msel : string; mret : M.ty; margs : M.ty list; malt : M.ty list option }
+type rset = { siface : int; spass : string; sbinds : (int * M.ty list) list }
+let rpc_ifaces : (int, M.n list * bool) Hashtbl.t = Hashtbl.create 8
+let rpc_methods : (int * int, rmethod) Hashtbl.t = Hashtbl.create 32
+let rpc_sets : (int, rset) Hashtbl.t = Hashtbl.create 16
+let tys_of (s : string) : M.ty list =
+  if s = "-" then [] else List.map (fun i -> Hashtbl.find pool ("T" ^ i)) (String.split_on_char ',' s)
+let hexbytes (s : string) : M.n list =
+  let n = String.length s / 2 in
+  List.init n (fun i -> n_of_int (int_of_string ("0x" ^ String.sub s (2 * i) 2)))
+let load_rpc (path : string) : unit =
+  if Sys.file_exists path then begin
+    let ic = open_in path in
+    (try while true do
+         let w = String.split_on_char ' ' (input_line ic) in
+         match w with
+         | ["iface"; k; name; s32] -> Hashtbl.replace rpc_ifaces (int_of_string k) (hexbytes name, s32 = "1")
+         | ["method"; k; m; name; sel; rt; ats; alt] ->
+             Hashtbl.replace rpc_methods (int_of_string k, int_of_string m)
+               { mname = hexbytes name; msel = sel; mret = Hashtbl.find pool ("T" ^ rt); margs = tys_of ats;
+                 malt = (if alt = "-" then None else Some (tys_of alt)) }
+         | "set" :: s :: k :: pk :: binds ->
+             let b = List.map (fun x -> match String.split_on_char ':' x with
+                                        | [m; _; ats] -> (int_of_string m, tys_of ats)
+                                        | _ -> failwith "binding") binds in
+             Hashtbl.replace rpc_sets (int_of_string s) { siface = int_of_string k; spass = pk; sbinds = b }
+         | _ -> ()
+       done with End_of_file -> ());
+    close_in ic
+  end
+let rpc_selector (k : int) (m : rmethod) : M.n =
+  let (iname, s32) = Hashtbl.find rpc_ifaces k in
+  if m.msel = "-" then M.method_selector s32 (M.interface_hash iname) m.mname else n_of_string m.msel
+
 let fault_of k code : (M.n * M.n) option =
   if k = "-" then None else Some (n_of_string k, n_of_string code)
 
@@ -511,12 +546,64 @@ let run_case (toks : sx list) : string =
   | [A "fungrow"; A tid] ->
       let t = ty_named tid in
       "row=" ^ String.concat "" (List.map (fun id -> if M.fungible t (ty_named id) then "1" else "0") !pool_order)
+  (* rpc IFACE SET TAG | action | ... : a caller and a dispatcher joined by two byte streams *)
+  | A "rpc" :: A k :: A s :: A tag :: rest ->
+      let k = int_of_string k in
+      let set = (try Hashtbl.find rpc_sets (int_of_string s) with Not_found -> failwith "unknown set") in
+      let (_, b32) = Hashtbl.find rpc_ifaces k in
+      let next_ret = ref M.VNone in
+      let bs = List.map (fun (m, hats) ->
+          let md = Hashtbl.find rpc_methods (k, m) in
+          { M.b_sel = rpc_selector k md; M.b_args = hats; M.b_ret = md.mret; M.b_fn = (fun _ _ -> !next_ret) }) set.sbinds in
+      let passr = (match set.spass with "none" -> "-" | "inst" -> "k" | "tag" -> "t" ^ tag | _ -> "kt" ^ tag) in
+      let rec split acc cur = function
+        | [] -> List.rev (List.rev cur :: acc)
+        | A "|" :: r -> split (List.rev cur :: acc) [] r
+        | x :: r -> split acc (x :: cur) r in
+      let actions = List.filter (fun a -> a <> []) (split [] [] rest) in
+      let inp = ref [] and reply = ref [] in
+      let serve () =
+        match M.dispatch b32 bs [] ((!inp, []), []) with
+        | M.Ok ((), ((i2, out), log)) -> inp := i2; ("0", out, log)
+        | M.Err (e, ((i2, out), log)) -> inp := i2; (string_of_n e, out, log) in
+      let show_log log = if log = [] then "-" else String.concat "+" (List.map (fun (c : M.rpc_call) ->
+          Printf.sprintf "%d:%s:%s" (int_of_nat c.M.k_idx) passr
+            (if c.M.k_args = [] then "-" else String.concat ";" (List.map string_of_val c.M.k_args))) log) in
+      let outs = List.map (fun act ->
+          match act with
+          | A (("I" | "J") as op) :: A m :: ret :: args ->
+              let md = Hashtbl.find rpc_methods (k, int_of_string m) in
+              next_ret := val_of ret;
+              let ats = (if op = "J" then (match md.malt with Some a -> a | None -> failwith "no alt") else md.margs) in
+              let (sent, req) = (match M.send_request b32 (rpc_selector k md) ats (List.map val_of args) [] with
+                                 | M.Ok ((), w) -> (None, w) | M.Err (e, w) -> (Some e, w)) in
+              inp := !inp @ req;
+              let (disp, rep, log) = serve () in
+              reply := !reply @ rep;
+              let inv = (match sent with
+                         | Some e -> string_of_n e ^ ":-"
+                         | None -> (match M.get_return md.mret !reply with
+                                    | M.Ok (v, r) -> reply := r; "0:" ^ string_of_val v
+                                    | M.Err (e, _) -> string_of_n e ^ ":-")) in
+              Printf.sprintf "inv=%s req=%s disp=%s log=%s rep=%s left=%d unread=%d" inv (hex_of_bytes req) disp (show_log log)
+                (hex_of_bytes rep) (List.length !inp) (List.length !reply)
+          | [A "R"; ret; A hex] ->
+              next_ret := val_of ret;
+              let req = bytes_of_hex hex in
+              inp := !inp @ req;
+              let (disp, rep, log) = serve () in
+              reply := !reply @ rep;
+              Printf.sprintf "inv=- req=%s disp=%s log=%s rep=%s left=%d unread=%d" (hex_of_bytes req) disp (show_log log)
+                (hex_of_bytes rep) (List.length !inp) (List.length !reply)
+          | _ -> failwith "rpc action") actions in
+      String.concat " | " outs
   | A op :: _ -> failwith ("unknown op " ^ op)
   | _ -> failwith "bad case"
 
 let () =
   if Array.length Sys.argv < 2 then (prerr_endline "usage: driver POOL < cases"; exit 2);
   load_pool Sys.argv.(1);
+  load_rpc (Filename.concat (Filename.dirname Sys.argv.(1)) "rpc.txt");
   (try while true do
        let line = input_line stdin in
        if String.length line = 0 || line.[0] = '#' then print_endline line
